@@ -180,3 +180,99 @@ Example ex_cycle_closed : closed_under_use ex_reg ex_aliases (fun g => g = 7 \/ 
                           uses ex_reg ex_aliases 7 [URaw [97]; tag0 s_Ping].
 Proof. exact ex_cycle_closed_proof. Qed.
 
+
+(* ---- the whole program (Whole/Main.v [tempren_main]; proofs in Whole/AliasWhole.v) ---- *)
+From Tempren Require Import Tpl.Ast Tpl.Parser Tpl.Visitor FS.Model Pipe.Pipeline Pipe.FrontCompile.
+From Tempren Require Import Whole.Library Whole.Render Whole.Gather Whole.Main Whole.AliasWhole Whole.Examples.
+
+(* The statement C15.v left to the correspondence check ("Not proved" above), now proved: merging adjacent raw texts
+   ([norm]: what the parser does with the inlined TEXT) commutes with the binder - same error, or the bound tree with
+   its raw texts merged ([bnorm], Whole/AliasWhole.v; alias instances keep the tree compiled from their own text) -
+   and the name renderer does not see it: same text for the file, same tree (merged) afterwards. *)
+Theorem C15_bind_norm :
+  forall (state : Type) (reg : registry)
+         (tag_check : fid -> targs -> bool -> outcome) (tag_init : fid -> targs -> state)
+         (fuel : nat) (al : atable) (p : upat),
+    bind_list state reg tag_check tag_init fuel al (norm p) =
+    res_map bnorm (bind_list state reg tag_check tag_init fuel al p).
+Proof. exact bind_norm. Qed.
+Print Assumptions C15_bind_norm.
+
+Theorem C15_render_norm :
+  forall (state file : Type) (sem : fid -> targs -> state -> file -> option str -> tout * state)
+         (fl : file) (l : bpat state),
+    render_list state file sem fl (bnorm l) =
+    (fst (render_list state file sem fl l), bnorm (snd (render_list state file sem fl l))).
+Proof. exact render_bnorm. Qed.
+Print Assumptions C15_render_norm.
+
+(* the inlined tree contains no alias occurrence: it binds alike against the alias table (with any fuel) and
+   against none - so the inlined TEXT may be compiled by the same registry that knows the aliases *)
+Theorem C15_inlined_binds_without_aliases :
+  forall (state : Type) (reg : registry)
+         (tag_check : fid -> targs -> bool -> outcome) (tag_init : fid -> targs -> state)
+         (fuel : nat) (al : atable) (host h : upat),
+    inline_list reg fuel al host = Some h ->
+    forall fuel1, bind_list state reg tag_check tag_init fuel1 al h = bind_list state reg tag_check tag_init 0 [] h.
+Proof. exact inline_binds_without_aliases. Qed.
+Print Assumptions C15_inlined_binds_without_aliases.
+
+(* The compiler on the two texts.  R is any registry value of the compiler (tagreg_of_rows: rows KClass / KAlias
+   text); host parses to h, and hu is h with every alias occurrence - %N() or %Alias.N(), without arguments and
+   context, nested through other aliases up to the registry's depth - replaced by the parsed pattern of its alias
+   ([inline_list], defined exactly under the conditions of C15_inline_defined); host' is ANY text whose parse tree is
+   hu up to the merging of adjacent raw texts - the text with the patterns written in place.  Then both are rejected
+   with the same exception class, or both compile, to trees that differ by flattening the alias instances and
+   merging raw texts. *)
+Theorem C15_whole_compile_inlined : forall R host host' h h' hu,
+  parse host = Ok h -> parse host' = Ok h' ->
+  inline_list (tr_names R) (tr_depth R) (aliases_of R) (upat_of h) = Some hu ->
+  norm (upat_of h') = norm hu ->
+  match compile R host with
+  | inl b => exists b', compile R host' = inl b' /\ bnorm b' = bnorm (flatten unit b)
+  | inr e => exists e', compile R host' = inr e' /\ exc_of_error e' = exc_of_error e
+  end.
+Proof. exact compile_inlined. Qed.
+Print Assumptions C15_whole_compile_inlined.
+
+(* ... and the program cannot tell them apart: the SAME result - exit status, system calls, intermediate states,
+   final tree, report - for every tree, every input list, every option (mode, strategy, dry run, -r, -ih, sort,
+   answers, fault) and every listing order, and for str.upper / str.lower whatever they are.  Each alias occurrence
+   owns its tag instances (Count state), exactly like the text written twice.  The last hypothesis is needed: the
+   command line refuses an EMPTY template text (status 2) before anything is compiled, so an alias whose pattern is
+   the empty text, used alone, is not the same as its pattern written in place (C15_whole_example). *)
+Theorem C15_whole_alias_inline : forall upper lower R o host host' h h' hu dirs s,
+  parse host = Ok h -> parse host' = Ok h' ->
+  inline_list (tr_names R) (tr_depth R) (aliases_of R) (upat_of h) = Some hu ->
+  norm (upat_of h') = norm hu ->
+  (host = [] <-> host' = []) ->
+  tempren_main upper lower R o host dirs s = tempren_main upper lower R o host' dirs s.
+Proof. exact whole_alias_inline. Qed.
+Print Assumptions C15_whole_alias_inline.
+
+(* the core library with Alias.N = a%Count()b and Alias.E = "" on the example tree, -r --sort: the hypotheses hold for
+   x%N()y%Alias.N() and xa%Count()bya%Count()b (the parse tree of the latter is NOT the inlined tree: 5 elements
+   against 8, equal after merging); the runs are equal and rename a.t, b.t, s/c, s/d.t to xa0bya0b, xa1bya1b,
+   xa0bya0b, xa1bya1b (two counters, each per directory).  %E() against the empty text: status 1 against 2. *)
+Example C15_whole_example :
+  tagreg_of_rows core_depth ex_alias_rows = Some ex_alias_reg /\
+  let R := ex_alias_reg in
+  let inl_ p := inline_list (tr_names R) (tr_depth R) (aliases_of R) (upat_of p) in
+  match parse t_alias_host, parse t_alias_inlined, parse t_alias_empty, parse [] with
+  | Ok h, Ok h', Ok he, Ok h0 =>
+    match inl_ h with
+    | Some hu => norm (upat_of h') = norm hu /\ length (upat_of h') = 5%nat /\ length hu = 8%nat
+    | None => False
+    end /\
+    inl_ he = Some [] /\ upat_of h0 = []
+  | _, _, _, _ => False
+  end /\
+  let run t := tempren_main ascii_upper_str ascii_lower_str R (ex_options MName true true) t ex_dirs ex_tree in
+  run t_alias_host = run t_alias_inlined /\
+  r_status (run t_alias_host) = 0%Z /\
+  map fst (r_final (run t_alias_host)) =
+    [ [ex_in]; [ex_in; [120; 97; 49; 98; 121; 97; 49; 98]]; [ex_in; [120; 97; 48; 98; 121; 97; 48; 98]];
+      [ex_in; [46; 104]]; [ex_in; [115]]; [ex_in; [115]; [120; 97; 48; 98; 121; 97; 48; 98]];
+      [ex_in; [115]; [120; 97; 49; 98; 121; 97; 49; 98]]; [[111; 116; 104; 101; 114]]; [[111; 116; 104; 101; 114]; [122]] ] /\
+  r_status (run t_alias_empty) = 1%Z /\ r_status (run []) = 2%Z.
+Proof. vm_compute. repeat split; reflexivity. Qed.
